@@ -20,6 +20,9 @@ PROFILE = {
     # session() blocks during which save_session() is called (same session / another namespace of the client / another
     # client / a pair naming no session)
     'session_during_p': 0.2,
+    # nested session() blocks whose INNER block is for another session (another namespace of the same client / another
+    # client / a pair naming no session) -- share of the nested-block ops
+    'session_nested_other_p': 0.5,
 }
 
 STATS = collections.Counter()      # what the oracle saw (flushed into the evidence by run())
@@ -101,6 +104,49 @@ def oracle(cfg, trace, residue):
         elif k == 'disconnect':
             for key in [x for x, v in live.items() if v == op['sid'] and x[1] == op['ns']]:
                 del live[key]
+        if k == 'session_nested' and S._nested_other(op):
+            # two session() blocks open at the same time for two DIFFERENT sessions (the inner one entered while the
+            # outer one is open): each block works on the dict of ITS OWN (sid, namespace) and stores it at its exit --
+            # afterwards each session holds what it held at entry plus its own block's modifications, nothing of the other's
+            sid, isid, ins = op['sid'], op['inner']['sid'], op['inner']['ns']
+            where = [x for x, v in live.items() if v == sid and x[1] == op['ns']]
+            if not where:
+                no_such_session(op, im)
+                continue
+            iwhere = [x for x, v in live.items() if v == isid and x[1] == ins]
+            variant = ('inner_names_no_session' if not iwhere else
+                       'inner_is_another_namespace_of_the_same_client' if iwhere[0][0] == where[0][0] else
+                       'inner_is_another_client')
+            stat('nested_blocks_two_sessions.' + variant)
+            stat('nested_blocks_two_sessions')
+            if (im['exc'] or None) != (None if iwhere else 'KeyError'):
+                fails.append((None, 'a session() block for %s [%r] entered while a session() block for %s [%r] is open (%s) '
+                                    'ended with %r' % (isid, ins, sid, op['ns'], variant, im['exc'])))
+                continue
+            if im['exc']:
+                continue          # the outer block stored its entry dict unmodified; judged by the reads that follow
+            for who, s_, key, kk, vv in (('inner', isid, iwhere[0], op['k2'], op['v2']),
+                                         ('outer', sid, where[0], op['k'], op['v'])):
+                base = store.get(s_, {})
+                want = dict(base if isinstance(base, dict) else {})
+                want[kk] = vv
+                got = im['result'][who]
+                inherited = earlier_stored(key, s_) and sid_is_new_on(key, s_, trace)
+                hist.setdefault(key, set()).add(s_)
+                if not C.same_unordered(got, want):
+                    if inherited:
+                        fails.append((SIG, 'a new session id on a namespace re-connected on the same transport still holds '
+                                           'the previous session: stored %r, this session wrote %r' % (got, want)))
+                        want = got
+                    else:
+                        fails.append((None, 'two session() blocks open at the same time for two different sessions (%s): '
+                                            'the %s block, for %s [%r], got %r at entry and set %s=%r; after both exits that '
+                                            'session holds %r instead of %r (the other block, for %s, set %s=%r)'
+                                      % (variant, who, s_, key[1], base, kk, vv, got, want,
+                                         sid if who == 'inner' else isid,
+                                         op['k'] if who == 'inner' else op['k2'], op['v'] if who == 'inner' else op['v2'])))
+                store[s_] = copy.deepcopy(want)
+            continue
         if k == 'session_nested':
             sid = op['sid']
             where = [x for x, v in live.items() if v == sid and x[1] == op['ns']]
@@ -232,7 +278,7 @@ def sid_is_new_on(key, sid, trace):
 
 
 def nontrivial(cfg, trace):
-    writes = ('save_session', 'session_block', 'session_block_save')
+    writes = ('save_session', 'session_block', 'session_block_save', 'session_nested')
     saves = sum(1 for o, _, _ in trace if o['op'] in writes)
     gets = sum(1 for o, _, _ in trace if o['op'] == 'get_session')
     sids = set(o['sid'] for o, _, _ in trace if o['op'] in writes)
@@ -247,7 +293,7 @@ def run(ctx):
     STATS.clear()
     S.run_cases(ctx, PROFILE, ctx.scale(150, 3000), 45, oracle=oracle, nontrivial=measure)
     for k, v in sorted(STATS.items()):
-        ctx.count(k if k.startswith('block') else 'no_such_session.' + k, v)
+        ctx.count(k if k.startswith(('block', 'nested_blocks')) else 'no_such_session.' + k, v)
     ctx.coverage['mismatched_sid_namespace_calls'] = {
         'rule': 'get_session / save_session / session() / nested session() with a (sid, namespace) pair that names no '
                 'live session: a live id with another namespace ("/" = argument omitted, or one the same client is / '
@@ -273,6 +319,15 @@ def run(ctx):
                 'hold what was saved for them; model: getSession; saveSession; saveSession(entry dict + modifications)',
         'blocks': STATS['blocks_with_save_inside'],
         'by_target': {k.split('.', 1)[1]: v for k, v in sorted(STATS.items()) if k.startswith('block_with_save_inside.')},
+    }
+    ctx.coverage['nested_session_blocks_for_two_sessions'] = {
+        'rule': 'with session(sid, ns) as a: with session(<other>) as b: b[k2]=..; a[k]=..  -- <other> = the session of '
+                'the same client on another namespace, another client\'s session, a pair naming no live session (the inner '
+                'entry raises KeyError through the outer block). Oracle: after both exits each session holds what it held '
+                'at entry plus its own block\'s modification, nothing of the other\'s (also judged by reads of both that '
+                'follow); model: getSession/saveSession per block on its own (sid, namespace)',
+        'ops': STATS['nested_blocks_two_sessions'],
+        'by_inner': {k.split('.', 1)[1]: v for k, v in sorted(STATS.items()) if k.startswith('nested_blocks_two_sessions.')},
     }
     ctx.coverage['rule'] = ('histories over connect(ns), save_session, get_session, session() blocks, namespace DISCONNECT, '
                             'disconnect(), transport loss, reconnect on the same or a new transport, for several clients and '
